@@ -1,4 +1,6 @@
 import RactorModel.Lemmas.TreeKids
+import RactorModel.Lemmas.TreeConcExit
+import RactorModel.Lemmas.TreeWindow
 import RactorModel.Extracted
 
 /-!
@@ -277,6 +279,144 @@ theorem wrappers_keep_invariant (ops : List MOp) (k : KOp) : ok (kstep true (mru
   have h := mrun_MI ops
   cases k <;> exact (mrun_MI' h _).inv.ok
 
+/-! ### Round 4: any number of concurrently exiting actors, linkers, unlinkers (`Model/TreeConc.lean`)
+
+A schedule is a `List COp`: `spawn`, `link`, `unlink`, `setStatus` of arbitrary outside threads, `begin a kill`
+(an actor's task leaves its message loop) and `xstep a` (the next statement of `a`'s exit, in the order
+the code has them; `terminate`'s worklist iteration is split into the kill test and `take_children`).
+Any number of actors exit at once, at any depth. -/
+
+/-- for ALL schedules: the structural invariant (two-sided link consistency, bounded ids, duplicate-free
+sets, a stopped actor has no links) holds between any two tree-lock regions, together with what every
+exit program counter promises (`MInv`) -/
+theorem conc_invariant (ops : List COp) : CInv (crun cinit ops) := CInv.init.run ops
+
+/-- (1) two-sided link consistency between lock regions, for all schedules -/
+theorem conc_links_consistent (ops : List COp) (c p : Nat) :
+    (crun cinit ops).t.sup c = some p ↔ child (crun cinit ops).t p c :=
+  (conc_invariant ops).inv.links c p
+
+/-- (3, strengthened) a Stopped actor's child set is CLOSED (not merely empty), it has no supervisor, and
+only the last statement of its own `cleanup` made it Stopped -/
+theorem conc_stopped_closed (ops : List COp) (a : Nat) (h : (crun cinit ops).t.status a = .stopped) :
+    (crun cinit ops).pc a = .done ∧ (crun cinit ops).t.kids a = none ∧ (crun cinit ops).t.sup a = none := by
+  have hd := (conc_invariant ops).stopped a h
+  have hm := (conc_invariant ops).mach a
+  rw [hd] at hm
+  exact ⟨hd, hm.2.1, hm.2.2⟩
+
+/-- (6) a draining / stopping / stopped actor gains neither a child nor a supervisor in any step of any
+thread, in every reachable state -/
+theorem conc_no_gain (ops : List COp) (op : COp) (z : Nat)
+    (hz : Status.draining.toNat ≤ ((crun cinit ops).t.status z).toNat) :
+    (∀ x, child (cstep (crun cinit ops) op).t z x → child (crun cinit ops).t z x) ∧
+    (∀ q, (cstep (crun cinit ops) op).t.sup z = some q → (crun cinit ops).t.sup z = some q) :=
+  Tree.conc_no_gain (conc_invariant ops) op z hz
+
+/-- being on the way out is stable: whatever anybody does -/
+theorem exiting_is_stable (ops more : List COp) (x : Nat) (h : Exiting (crun cinit ops) x) :
+    Exiting (crun (crun cinit ops) more) x :=
+  exiting_run (conc_invariant ops) more x h
+
+/-- (1)+(2), the general form.  `g0` any reachable state in which `a` is on its way out (its task has left
+the message loop, or it was sent the kill signal, or it has published `Stopping`), `z` linked beneath `a` at
+that instant, at any depth.  For EVERY continuation of the schedule — other actors of the subtree exiting
+concurrently, linkers, unlinkers, spawns anywhere — that comes to rest: `z` is Stopped (status, not a
+flag), closed and detached, unless an outside thread's accepted `unlink` / hand-over `link` took `z`, or
+an actor between `a` and `z`, out of its supervisor's child set during the run. -/
+theorem conc_exit_takes_subtree (ops0 ops : List COp) (a z : Nat)
+    (ha : Exiting (crun cinit ops0) a) (hd : Desc (crun cinit ops0).t a z)
+    (hr : Rest (crun (crun cinit ops0) ops)) :
+    ((crun (crun cinit ops0) ops).t.status z = .stopped ∧ (crun (crun cinit ops0) ops).t.kids z = none ∧
+      (crun (crun cinit ops0) ops).t.sup z = none) ∨
+    ∃ y, DescP (crun cinit ops0).t a y ∧ Desc (crun cinit ops0).t y z ∧ escRun (crun cinit ops0) ops y = true := by
+  rcases rest_subtree (conc_invariant ops0) ops ha hd hr with e | e
+  · exact .inl (rest_exiting ((conc_invariant ops0).run ops) hr e).2
+  · exact .inr e
+
+/-- … in particular, if nobody unlinks or hands over an actor of the subtree during the run, the whole
+subtree is Stopped at rest -/
+theorem conc_exit_takes_whole_subtree (ops0 ops : List COp) (a : Nat)
+    (ha : Exiting (crun cinit ops0) a) (hr : Rest (crun (crun cinit ops0) ops))
+    (hne : ∀ y, DescP (crun cinit ops0).t a y → escRun (crun cinit ops0) ops y = false) (z : Nat)
+    (hd : Desc (crun cinit ops0).t a z) :
+    (crun (crun cinit ops0) ops).t.status z = .stopped := by
+  rcases conc_exit_takes_subtree ops0 ops a z ha hd hr with e | ⟨y, h1, _, h3⟩
+  · exact e.1
+  · rw [hne y h1] at h3; cases h3
+
+/-- a link that arrives while its target is on the way out: whatever the interleaving, if it is accepted
+the new child is Stopped at rest (clause 4/5 for any number of linkers and exits: the accepted link makes
+`c` a child of `p` in the state after it, and the general theorem applies from there) -/
+theorem conc_link_under_exiting (ops0 ops : List COp) (c p : Nat)
+    (hp : Exiting (crun cinit ops0) p)
+    (hacc : (link (crun cinit ops0).t c p).2 = true)
+    (hr : Rest (crun (crun cinit ops0) (.link c p :: ops)))
+    (hne : escRun (cstep (crun cinit ops0) (.link c p)) ops c = false) :
+    (crun (crun cinit ops0) (.link c p :: ops)).t.status c = .stopped := by
+  have h1 : CInv (cstep (crun cinit ops0) (.link c p)) := (conc_invariant ops0).step _
+  have hsup : (cstep (crun cinit ops0) (.link c p)).t.sup c = some p := (link_true hacc).2.2
+  have hch : child (cstep (crun cinit ops0) (.link c p)).t p c := (h1.inv.links c p).mp hsup
+  have hp' := exiting_step (conc_invariant ops0) (.link c p) p hp
+  rcases edge_run h1 ops hch with r | r | r
+  · exfalso
+    have := (rest_exiting (h1.run ops) hr (exiting_run h1 ops p hp')).2.2.1
+    obtain ⟨ks, hk, _⟩ := r
+    rw [this] at hk; cases hk
+  · exact (rest_exiting (h1.run ops) hr r).2.1
+  · rw [hne] at r; cases r
+
+/-- a descendant that has already published `Stopping` (it sits in `post_stop`) is detached but NOT sent
+the kill signal — `terminate` tests `status < Stopping` — and it counts as on its way out: "takes its
+subtree" for such an actor means that its own `cleanup` is what stops it (the `Rest` hypothesis). -/
+theorem stopping_descendant_not_killed_but_exiting (g : CState) (y : Nat)
+    (h : Status.stopping.toNat ≤ (g.t.status y).toNat) :
+    applyAct g.t (.kill y) = g.t ∧ Exiting g y := by
+  refine ⟨?_, .inr (.inr (.inl h))⟩
+  have : killCond true (g.t.status y) = false := by
+    cases hs : g.t.status y <;> rw [hs] at h <;> simp [killCond, Status.toNat] at h ⊢
+  simp [Tree.applyAct, this]
+
+/-- the worklist iteration of the atomic model is the kill test followed by `take_children` — the two
+steps of the concurrent model, with a schedule point (`tree.take`) between them -/
+theorem visit_is_kill_then_take (t : State) (y : Nat) :
+    visit true t y = takeChildren (applyAct t (.kill y)) y := Tree.visit_eq_kill_take t y
+
+/-! #### what a lock-free reader can see (`get_children`, `try_get_supervisor` do not take the tree lock) -/
+
+/-- an accepted hand-over `link c p` is two halves; between them only `TREE_MUTATION_LOCK` is held -/
+theorem handover_is_two_halves {s : State} {c p q : Nat} {ks : List Nat}
+    (hg : gate s c p) (hk : s.kids p = some ks) (hs : s.sup c = some q) (hqp : q ≠ p) :
+    link s c p = (linkB (linkA s c p) c q, true) := link_handover_split hg hk hs hqp
+
+/-- between the halves a reader sees a state that is consistent EXCEPT that `c` is listed by both the new
+supervisor `p` and the previous one `q`, its supervisor field naming `p`: "a child is in exactly its
+supervisor's set" fails for a lock-free reader exactly for the child of an in-flight hand-over, and only
+as `c ∈ get_children(q)` with `try_get_supervisor(c) = p`. -/
+theorem reader_sees_during_link (ops : List COp) {c p q : Nat} {ks : List Nat}
+    (hk : (crun cinit ops).t.kids p = some ks) (hs : (crun cinit ops).t.sup c = some q) (hqp : q ≠ p) :
+    let m := linkA (crun cinit ops).t c p
+    (∀ x y, m.sup x = some y → child m y x) ∧
+    (∀ x y, child m y x → m.sup x = some y ∨ (x = c ∧ y = q)) ∧
+    child m q c ∧ child m p c ∧ m.sup c = some p :=
+  reader_link_window (conc_invariant ops).inv hk hs hqp
+
+/-- inside `take_children p` (set taken, supervisor fields of `cleared` reset, the others not yet): every
+listed child names its supervisor; a supervisor field that names an actor not listing the child is the
+field of a not-yet-cleared child of `p` — and `p.children` is locked for the whole region, so a reader
+cannot see `p`'s set at that instant at all. -/
+theorem reader_sees_during_take (ops : List COp) {p : Nat} {ks : List Nat}
+    (hk : (crun cinit ops).t.kids p = some ks) (cleared : List Nat) :
+    let m := takeMid (crun cinit ops).t p cleared
+    (∀ x y, child m y x → m.sup x = some y) ∧
+    (∀ x y, m.sup x = some y → child m y x ∨ (y = p ∧ x ∈ ks ∧ x ∉ cleared)) ∧
+    m.kids p = none :=
+  reader_take_window (conc_invariant ops).inv hk cleared
+
+/-- … and with every field cleared it is the region's result -/
+theorem take_window_end {s : State} {p : Nat} {ks : List Nat} (hk : s.kids p = some ks) :
+    takeMid s p ks = (takeChildren s p).1 := takeMid_all hk
+
 /-! ### ties to the source text (E-SRC) -/
 
 /-- the kill condition in `ActorCell::terminate` is the one the model uses for the code under test -/
@@ -329,6 +469,32 @@ example : let s := steps true init [.spawn, .spawn, .setStatus 0 .running, .setS
     (raceRun true false s 0 1 0 1 9).2 = false ∧ (raceRun true false s 0 1 0 0 9).2 = true ∧
       (raceRun true false s 0 1 0 0 9).1.t.killed 1 = true ∧ (raceRun true false s 0 1 0 0 9).1.pc = .done := by decide
 
+/-- round 4: chain 0 ← 1 ← 2, orphan 3.  0 takes the kill signal and walks its worklist; 1, killed by it,
+runs its own `terminate` at the same time; 3 is linked under the grandchild 2 in the middle of all that
+(accepted); 2 and 3 take their kill signals; round-robin to the end: everything is Stopped and closed. -/
+example : let g := crun cinit ([.spawn, .spawn, .spawn, .spawn, .setStatus 0 .running, .setStatus 1 .running,
+      .setStatus 2 .running, .setStatus 3 .running, .link 1 0, .link 2 1,
+      .begin 0 true, .xstep 0, .xstep 0, .xstep 0, .begin 1 true, .link 3 2, .xstep 1, .xstep 0, .xstep 1,
+      .begin 2 true, .begin 3 true] ++
+      (List.replicate 14 [COp.xstep 0, .xstep 1, .xstep 2, .xstep 3]).flatten)
+    g.t.sup 3 = none ∧ g.t.killed 3 = true ∧
+      [0, 1, 2, 3].all (fun x => g.pc x == .done && g.t.status x == .stopped && g.t.kids x == none) = true := by
+  decide +kernel
+
+/-- round 4: the same exit, but an outside thread unlinks 1 from 0 before 0's worklist reaches it: 1 (and 2
+beneath it) escape — the `escRun` disjunct of `conc_exit_takes_subtree` is needed -/
+example : let g0 := crun cinit [.spawn, .spawn, .spawn, .setStatus 0 .running, .setStatus 1 .running,
+      .setStatus 2 .running, .link 1 0, .link 2 1, .begin 0 true]
+    let ops := [COp.xstep 0, .unlink 1 0] ++ (List.replicate 10 (COp.xstep 0))
+    let g := crun g0 ops
+    escRun g0 ops 1 = true ∧ g.pc 0 = .done ∧ g.t.status 0 = .stopped ∧ g.t.status 1 = .running ∧
+      g.t.sup 2 = some 1 ∧ g.t.killed 1 = false := by decide
+
+/-- round 4: a descendant parked in `post_stop` (Stopping) is detached, not killed -/
+example : let g := crun cinit ([.spawn, .spawn, .setStatus 0 .running, .setStatus 1 .running, .link 1 0,
+      .setStatus 1 .stopping, .begin 0 false] ++ List.replicate 9 (COp.xstep 0))
+    g.pc 0 = .done ∧ g.t.killed 1 = false ∧ g.t.sup 1 = none ∧ g.t.status 1 = .stopping := by decide
+
 end C05
 
 #print axioms C05.invariant
@@ -359,3 +525,17 @@ end C05
 #print axioms C05.kill_condition_matches_source
 #print axioms C05.cleanup_order_matches_source
 #print axioms C05.status_discriminants_match_source
+#print axioms C05.conc_invariant
+#print axioms C05.conc_links_consistent
+#print axioms C05.conc_stopped_closed
+#print axioms C05.conc_no_gain
+#print axioms C05.exiting_is_stable
+#print axioms C05.conc_exit_takes_subtree
+#print axioms C05.conc_exit_takes_whole_subtree
+#print axioms C05.conc_link_under_exiting
+#print axioms C05.stopping_descendant_not_killed_but_exiting
+#print axioms C05.visit_is_kill_then_take
+#print axioms C05.handover_is_two_halves
+#print axioms C05.reader_sees_during_link
+#print axioms C05.reader_sees_during_take
+#print axioms C05.take_window_end
